@@ -3,6 +3,8 @@ package main
 import (
 	"fmt"
 
+	"github.com/go-i2p/common/certificate"
+	"github.com/go-i2p/common/key_certificate"
 	"github.com/go-i2p/common/destination"
 	"github.com/go-i2p/common/keys_and_cert"
 	"github.com/go-i2p/common/lease_set"
@@ -165,6 +167,70 @@ func runC09(c *Ctx) {
 						checkRI("ReadRouterInfo", riB, ri.KeysAndCert)
 					}
 				}
+			}
+		}
+	}
+	c09ConstructedFromCallerBuffers(c)
+}
+
+// c09ConstructedFromCallerBuffers: identities built through the constructors from buffers the caller
+// owns (the certificate payload carrying the two type codes, the padding) and then reuses for the
+// next identity, as a loop filling one scratch buffer does: a value the constructor returned for a
+// permitted pair must go on declaring that pair, whatever the caller writes into its buffers later
+func c09ConstructedFromCallerBuffers(c *Ctx) {
+	type held struct {
+		path string
+		k    *keys_and_cert.KeysAndCert
+		s    int
+		cr   int
+		ri   bool
+	}
+	var values []held
+	payload := make([]byte, 4) // one scratch buffer, reused for every certificate
+	pad := make([]byte, 384)
+	for _, s := range libSigSupported {
+		for _, cr := range libCryptoSupported {
+			copy(payload, cat(u16(s), u16(cr)))
+			cert, err := certificate.NewCertificateWithType(5, payload)
+			if err != nil || cert == nil {
+				continue
+			}
+			kc, kerr := key_certificate.KeyCertificateFromCertificate(cert)
+			if kerr != nil || kc == nil {
+				continue
+			}
+			need := 384 - kc.CryptoSize() - kc.SigningPublicKeySize()
+			if need < 0 {
+				continue
+			}
+			if ri, e := router_identity.NewRouterIdentity(newFakeKey(kc.CryptoSize()), newFakeSPK(kc.SigningPublicKeySize()), cert, pad[:need]); e == nil && ri != nil {
+				values = append(values, held{"NewRouterIdentity", ri.KeysAndCert, s, cr, true})
+			}
+			if k, e := keys_and_cert.NewKeysAndCert(kc, newFakeKey(kc.CryptoSize()), pad[:need], newFakeSPK(kc.SigningPublicKeySize())); e == nil && k != nil {
+				if d, e2 := destination.NewDestination(k); e2 == nil && d != nil {
+					values = append(values, held{"NewDestination", d.KeysAndCert, s, cr, false})
+				}
+			}
+		}
+	}
+	// the caller moves on: its scratch buffers now hold other type codes and other padding
+	for _, fill := range [][]byte{cat(u16(11), u16(6)), cat(u16(8), u16(5)), {0xff, 0xff, 0xff, 0xff}} {
+		copy(payload, fill)
+		for i := range pad {
+			pad[i] ^= 0x5a
+		}
+		for _, h := range values {
+			if h.k == nil || h.k.KeyCertificate == nil {
+				continue
+			}
+			s, cr := typesOf(h.k)
+			args := [][]byte{cat(u16(h.s), u16(h.cr)), fill}
+			if h.ri {
+				c.Check("router_identity_types_permitted", s == h.s && cr == h.cr && !specRIDenySig[s] && !specDenyCrypto[cr], h.path+" (caller reuses its buffers)", args, "",
+					fmt.Sprintf("a RouterIdentity built for (%d,%d) now declares (%d,%d)", h.s, h.cr, s, cr))
+			} else {
+				c.Check("destination_types_permitted", s == h.s && cr == h.cr && !specDestDenySig[s] && !specDenyCrypto[cr], h.path+" (caller reuses its buffers)", args, "",
+					fmt.Sprintf("a Destination built for (%d,%d) now declares (%d,%d)", h.s, h.cr, s, cr))
 			}
 		}
 	}
